@@ -120,6 +120,9 @@ def run(ck):
     ]
     ck.coq_props()
     run_cursor(ck)
-    from checks import sqltext
-    if hasattr(sqltext, "run_promsel"):
-        sqltext.run_promsel(ck)
+    try:
+        from checks import promsel          # part 2: matcher -> SQL selection (PromQL transpiler, profile selectors)
+    except ImportError:
+        promsel = None
+    if promsel is not None:
+        promsel.run(ck)
